@@ -233,6 +233,27 @@ func SolveOpt(script string, dir, name string, timeoutS int, confirm, deep bool)
 			definitive = true
 		}
 	}
+	if !definitive && deep {
+		// a solver ran out of time (for instance on a loaded machine): one more attempt
+		// with the usual winner and three times the budget, so that a slow machine does
+		// not turn a provable obligation into an alarm
+		anyTO := false
+		for _, v := range res.Raw {
+			if strings.HasPrefix(v, "timeout") {
+				anyTO = true
+			}
+		}
+		if anyTO {
+			sp := solvers[0]
+			v, _, dt := runOne(context.Background(), sp, file, 3*timeoutS)
+			res.Raw[sp.name+"(retry x3)"] = fmt.Sprintf("%s (%.2fs)", v, dt)
+			if v == "unsat" {
+				res.Verdict, res.Solver = "unsat", sp.name
+				res.TimeS = time.Since(t0).Seconds()
+				definitive = true
+			}
+		}
+	}
 	if definitive && res.Verdict == "unsat" && confirm {
 		for _, sp := range solvers {
 			if sp.name == res.Solver {
